@@ -703,6 +703,9 @@ def check(run, project):
     run.ob("X1", Failures.n >= 200, f"encrypted() evaluated without an internal error on {Failures.n} parameter areas",
            f"encrypted() could be folded over only {Failures.n} parameter areas", module=lg.roles.mod, node=lg.roles.mod.tree,
            func="TPMS_PARAMS.encrypted", construct="encrypted() total")
+    from .shared import call_signatures
+    n_calls = call_signatures(run, project, "X3")
+    run.require(n_calls >= 40, f"X3: only {n_calls} resolvable calls in the decode core")
     x2(run, lg)
     run.floor("X1", 70, "failure sites")
     run.floor("X2", 20)
